@@ -137,3 +137,7 @@ impl<'a> From<Datagram<DecoderBufferMut<'a>>> for DatagramMut<'a> {
         d.map_data(|data| data.into_less_safe_slice())
     }
 }
+
+#[cfg(all(aws_s2n_quic_verif, test))]
+#[path = "/verif/harness/core/frame_datagram.rs"]
+mod verif;
